@@ -209,7 +209,69 @@ class Lowerer:
         if forced is not None:
             self.trace.append((n, forced, "cell"))
             return forced
-        return self._next_decision(n)
+        v = self._next_decision(n)
+        if op in ("LT", "LE"):
+            try:
+                self._learn_sign(op, self.value(args[0]) - self.value(args[1]), v)
+            except (EngineError, TimeoutError):
+                pass
+        return v
+
+    def _learn_sign(self, op, d: Frac, decision):
+        """a path decision `a < b` / `a <= b` (taken or not) fixes the sign of d = a - b.  When d is, up to strictly positive
+        factors, a single factor f of unknown sign, the fact f >= 0 (or -f >= 0) is recorded for the rest of this path:
+        |f| and sqrt(f^2) then simplify without a sign atom, and a sign atom already created for f is resolved."""
+        R = self.R
+        if d.is_const():
+            return
+        # sign of d on this path: LT taken: d < 0; LT not taken: d >= 0; LE taken: d <= 0; LE not taken: d > 0
+        s_d = -1 if decision else 1
+        pos = getattr(R, "positive", set())
+
+        def strictly_positive(f):
+            if R.syntactically_nonneg(f, strict=True):
+                return True
+            return len(f.t) == 1 and all(i in pos for i, _ in R._unpack(next(iter(f.t)))) and next(iter(f.t.values())) > 0
+
+        c, facs = R.factor(d.num)
+        unknown = []
+        sign = 1 if c > 0 else -1
+        for f, e in facs:
+            if strictly_positive(f):
+                continue
+            if strictly_positive(-f):
+                if e % 2:
+                    sign = -sign
+                continue
+            if e % 2 == 0:
+                return  # an even power of an unknown factor may vanish: nothing learned
+            unknown.append(f)
+        for f, e in d.den.items():
+            if strictly_positive(f):
+                continue
+            if strictly_positive(-f):
+                if e % 2:
+                    sign = -sign
+                continue
+            return
+        if len(unknown) != 1:
+            return
+        f = unknown[0]
+        g = f if sign * s_d > 0 else -f   # g >= 0 on this path
+        R.declare_nonneg(g)
+        if len(g.t) == 1:
+            (m, cf), = g.t.items()
+            vs = R._unpack(m)
+            if cf > 0 and len(vs) == 1 and vs[0][1] == 1:
+                R.nonneg.add(vs[0][0])
+        # resolve a sign atom that was created for this factor earlier on the path
+        lc = f.lead()[1]
+        fn = f if lc == 1 else f.scale(1 / lc)
+        sv = R.signs.get(fn.key())
+        if sv is not None and sv not in R.rel:
+            # sign(fn) = sign(f) * sign(lc); f has the sign of g's relation to f
+            s_f = 1 if g is f else -1
+            R.add_relation(sv, 1, R.const(s_f if lc > 0 else -s_f))
 
     def _decide_cmp(self, key, a, b, strict, node):
         d = a - b
@@ -292,6 +354,18 @@ class Lowerer:
         N = a.num
         dn = Frac.of(R, 1)
         for f, e in a.den.items():
+            # a denominator factor that is (plus or minus) a known square, f = r^2 or f = -r^2 (e.g. the normal form
+            # 1 - q1^2 - q2^2 - q3^2 of q0^2): sqrt(N / f^e) = sqrt(+-N) / r^e, no new radicand
+            rt = self._root_lookup(f)
+            neg = False
+            if rt is None:
+                rt = self._root_lookup(-f)
+                neg = rt is not None
+            if rt is not None:
+                dn = dn * Frac(R, rt ** e)
+                if neg and e % 2:
+                    N = -N
+                continue
             if e % 2:
                 N = N * f
             dn = dn * Frac(R, self.abs_poly(f) ** ((e + 1) // 2))
